@@ -156,6 +156,36 @@ func (g *c02gen) ziplist(entries [][]byte) []byte {
 	return append(zl, 0xff)
 }
 
+// ---- zipmap: <count byte (254 = unknown, walk)> { <len> key <len> <free> value <free bytes> } 0xFF; len < 254 literal, else 254 + 4 bytes LE
+func (g *c02gen) zipmap(fields [][2][]byte) []byte {
+	zmLen := func(n int) []byte {
+		if n < 254 && g.r.Intn(8) != 0 {
+			return []byte{byte(n)}
+		}
+		return []byte{254, byte(n), byte(n >> 8), byte(n >> 16), byte(n >> 24)}
+	}
+	cnt := len(fields)
+	if cnt >= 254 || g.r.Intn(6) == 0 {
+		cnt = 254
+	}
+	b := []byte{byte(cnt)}
+	for _, f := range fields {
+		b = append(b, zmLen(len(f[0]))...)
+		b = append(b, f[0]...)
+		b = append(b, zmLen(len(f[1]))...)
+		free := 0
+		if g.r.Intn(4) == 0 {
+			free = 1 + g.r.Intn(4)
+		}
+		b = append(b, byte(free))
+		b = append(b, f[1]...)
+		for k := 0; k < free; k++ {
+			b = append(b, byte(g.r.Intn(256)))
+		}
+	}
+	return append(b, 0xff)
+}
+
 // ---- scores
 
 // the scores the Lean driver's float codec knows: integers below 2^53 and this table
@@ -284,7 +314,7 @@ func (g *c02gen) absValue(t byte) *c02absVal {
 				v.items = append(v.items, []byte(strconv.FormatInt(x, 10)))
 			}
 		}
-	case 13: // hash ziplist
+	case 13, 9: // hash ziplist, zipmap
 		for i := 0; i < n; i++ {
 			v.fields = append(v.fields, [2][]byte{g.member(i, n), g.word()})
 		}
@@ -352,6 +382,8 @@ func (g *c02gen) body(v *c02absVal) []byte {
 		}
 	case 10:
 		return g.serStr(g.ziplist(v.items))
+	case 9:
+		return g.serStr(g.zipmap(v.fields))
 	case 13:
 		var es [][]byte
 		for _, x := range v.fields {
@@ -421,7 +453,7 @@ func (v *c02absVal) logical() string {
 				m.items = append(m.items, x)
 			}
 		}
-	case 4, 13:
+	case 4, 13, 9:
 		m.kind = 'h'
 		for _, x := range v.fields {
 			dup := false
@@ -615,7 +647,7 @@ func (g *c02gen) plainEntry(t byte) (*c02entry, *c02absVal) {
 	return e, v
 }
 
-var c02types = []byte{0, 1, 2, 3, 4, 5, 14, 0, 1, 2, 4, 5, 14, 15, 10, 11, 12, 13}
+var c02types = []byte{0, 1, 2, 3, 4, 5, 14, 0, 1, 2, 4, 5, 14, 15, 10, 11, 12, 13, 9}
 
 func genC02(gg *gen) {
 	g := &c02gen{gen: gg, rg: &rdbGen{r: gg.r, maxStr: 60, maxColl: 6, stats: map[string]int{}}}
